@@ -112,6 +112,47 @@ struct World {
     t0: tokio::time::Instant,
     isfile: bool,
     seg_bytes: u64,
+    black: std::collections::HashSet<String>,
+}
+
+/// next step of the epilogue: in-flight PDUs first (lost on a dark direction), then sends, then due timeouts, then time
+fn epilogue_step(w: &World, bound: u64, idle_jump: &mut bool) -> Option<Value> {
+    for (ch, q) in [("c2r", &w.c2r), ("c2s", &w.c2s)] {
+        if !q.is_empty() {
+            let a = if w.black.contains(ch) { "Drop" } else { "Deliver" };
+            return Some(json!({"a": a, "ch": ch, "i": 1}));
+        }
+    }
+    if w.sender.as_ref().map(|t| t.verif_has_pdu_to_send()).unwrap_or(false) {
+        return Some(json!({"a": "S_Send"}));
+    }
+    if w.receiver.as_ref().map(|t| t.verif_has_pdu_to_send()).unwrap_or(false) {
+        return Some(json!({"a": "R_Send"}));
+    }
+    let su = w.sender.as_ref().map(|t| t.verif_until_timeout());
+    let ru = w.receiver.as_ref().map(|t| t.verif_until_timeout());
+    if su == Some(Duration::ZERO) {
+        return Some(json!({"a": "S_Timeout"}));
+    }
+    if ru == Some(Duration::ZERO) {
+        return Some(json!({"a": "R_Timeout"}));
+    }
+    if w.sender.is_none() && w.receiver.is_none() {
+        return None;
+    }
+    let next = [su, ru].iter().flatten().filter(|d| **d != Duration::MAX).map(|d| (d.as_millis() as u64 + 999) / 1000).min();
+    match next {
+        Some(d) => Some(json!({"a": "Tick", "d": d.max(1)})),
+        None => {
+            // somebody is alive and nothing will ever wake it up: let the bound pass once
+            if *idle_jump {
+                None
+            } else {
+                *idle_jump = true;
+                Some(json!({"a": "Tick", "d": bound + 1}))
+            }
+        }
+    }
 }
 
 fn s(v: &Value, k: &str) -> String {
@@ -254,6 +295,7 @@ impl World {
             t0: tokio::time::Instant::now(),
             isfile,
             seg_bytes,
+            black: std::collections::HashSet::new(),
         }
     }
 
@@ -510,7 +552,32 @@ async fn run_script(script: &Value, out: &mut impl Write) {
     writeln!(out, "{}", json!({"a": "Reset", "id": script["id"], "cfg": cfg, "ind": init_ind,
                                "steps": script["path"].as_array().map(|a| a.len()).unwrap_or(0)})).unwrap();
     let mut lines: Vec<Value> = vec![];
-    for (idx, step) in script["path"].as_array().unwrap().iter().enumerate() {
+    // the script, then (unless disabled) an EPILOGUE: the real system is run on, fault-free and with urgent
+    // local steps, until both transactions have ended or nothing can happen any more - so that every replay
+    // is judged on a complete execution (termination, final outcome), not only on the model's path
+    let mut pending: std::collections::VecDeque<Value> = script["path"].as_array().unwrap().iter().cloned().collect();
+    let epilogue_max = if cfg["epilogue"].as_bool().unwrap_or(true) { 80 } else { 0 };
+    let bound = (u(cfg, "limit") + 1) * (cfg["to"][0].as_u64().unwrap() + cfg["to"][1].as_u64().unwrap() + cfg["to"][2].as_u64().unwrap()) + u(cfg, "delay") + 1;
+    let mut epi = 0;
+    let mut idle_jump = false;
+    let mut idx: usize = 0;
+    loop {
+        let (step, is_epi) = match pending.pop_front() {
+            Some(s) => (s, false),
+            None => {
+                if epi >= epilogue_max {
+                    break;
+                }
+                match epilogue_step(&w, bound, &mut idle_jump) {
+                    Some(s) => {
+                        epi += 1;
+                        (s, true)
+                    }
+                    None => break,
+                }
+            }
+        };
+        let step = &step;
         let a = step["a"].as_str().unwrap();
         let mut res = String::from("ok");
         let mut outp: Vec<Value> = vec![];
@@ -609,6 +676,7 @@ async fn run_script(script: &Value, out: &mut impl Write) {
             }
             "Blackout" => {
                 // the model marks a direction as dark; the losses themselves are Drop steps
+                w.black.insert(step["ch"].as_str().unwrap().to_string());
             }
             "Tick" => {
                 tokio::time::advance(Duration::from_secs(step["d"].as_u64().unwrap())).await;
@@ -703,8 +771,10 @@ async fn run_script(script: &Value, out: &mut impl Write) {
             }
             None => json!({"alive": false, "why": w.r_dead.clone().unwrap_or_default()}),
         };
+        idx += 1;
         let mut line = json!({
-            "i": idx + 1,
+            "i": idx,
+            "epi": is_epi,
             "t": now.as_secs(),
             "a": a,
             "res": res,
